@@ -34,7 +34,7 @@ INV = ["TypeOK", "Serializable", "LinearChain", "AckedOnce", "NoDoubleCommit", "
 def mc_base(**over: Any) -> Dict[str, Any]:
     base = {"Actors": Raw("<- A2"), "Role": Raw("<- Role_C2"), "Idx": Raw("<- Idx_2"), "Handle": Raw("<- Sep_2"),
             "Prog": Raw("<- Prog_2App"), "Backend": "local", "LockKind": "excl", "ClockMode": "strict",
-            "MaxClock": 6, "MaxAttempts": 2, "InitSnaps": 2, "InitTable": "healthy", "FixOrphanMeta": False, "FixStamp": True, "FixEtag": False, "FixGCOrder": False, "FixGCFail": False,
+            "MaxClock": 6, "MaxAttempts": 2, "InitSnaps": 2, "InitTable": "healthy", "FixOrphanMeta": False, "FixMetaInTry": True, "FixStamp": True, "FixEtag": False, "FixGCOrder": False, "FixGCFail": False,
             "FixInterrupt": False, "FaultKinds": set(), "DamageKinds": set(), "CrashOK": False, "FaultBudget": 0, "Grace": 0, "OldFiles": False, "PreFiles": set(), "Lease": 2, "MarkerTimeout": 1000}
     base.update(over)
     return base
